@@ -22,7 +22,11 @@ ASSUMPTIONS = [
     "string operands compared with a terminal of a non-string type are canonised by libyang first (set_comp_canonize, deliberate, finding F355): "
     "the engine does the same (switch canonStr) for int*/uint*/decimal64/bits/identityref terminals and leafrefs to them through the value models of "
     "property C03, keyed by `#type` facts; generated strings include valid non-canonical lexical forms (xpcomp.NONCANON_POOL, Gen.noncanon_of); "
-    "union / instance-identifier / binary / empty terminals are not in the test schema",
+    "a union terminal canonises by the first member type that accepts the STRING (value.realtype of a union value is the union type); the canoniser "
+    "of an instance-identifier terminal is the identity in the engine: generated strings compared with such a leaf are canonical paths or no paths; "
+    "binary / empty terminals are not in the test schema",
+    "deref() of an instance-identifier: the engine parses the canonical value of the dump (`/mod:name[key='v']…[.='v']`, no positional predicates) and "
+    "walks the XML view; generated values are paths to nodes of the generated tree (with key / value predicates) and dangling paths (F356)",
     "schema facts of the engine (identity DAG, enum values, leafref paths, value types) are derived by python from the YANG text of the test modules "
     "(xpcomp.yang_facts, a statement parser of its own; libyang is not asked) and travel as `#` header lines of the dump in every eval request; "
     "deref() is modelled for leafrefs whose path has no predicate; re-match() patterns stay inside the XSD subset on which the XsdRe model of C18 "
@@ -52,9 +56,9 @@ TRUSTED = ["harness/api_xpath.c, harness/wb_xpath.c",
 
 HARNESS = "api_xpath"
 COMP = "xpath"
-ALL = 65535
+ALL = 131071
 # Quirks bit -> finding
-QBITS = {0: "F38", 1: "F39", 2: "F40", 3: "F41", 4: "F250", 5: "F251", 6: "F252", 7: "F253", 8: "F254", 9: "F255", 10: "F256", 11: "F261", 12: "F264", 13: "F355", 14: "F354", 15: "F353"}
+QBITS = {0: "F38", 1: "F39", 2: "F40", 3: "F41", 4: "F250", 5: "F251", 6: "F252", 7: "F253", 8: "F254", 9: "F255", 10: "F256", 11: "F261", 12: "F264", 13: "F355", 14: "F354", 15: "F353", 16: "F356"}
 
 
 def classify(component, what, case):
@@ -374,7 +378,8 @@ def run(cx):
             c = rng.randrange(0, len(nodes) + 1) if nodes else 0
             g.nonroot = c != 0
             y = rng.random()
-            e = (g.yang_bool(2, cursor_of(nodes, c)) if y < 0.7 else
+            e = (g.yang_bool(2, cursor_of(nodes, c)) if y < 0.6 else
+                 g.bit_is_set(2, cursor_of(nodes, c)) if y < 0.7 else
                  X.fn("enum-value", g.typed_path([X.ENUM, X.ENUM2, X.INT])[1]) if y < 0.8 else
                  rng.choice([lambda d: d, lambda d: X.fn("count", d), lambda d: ("path", ("E", d), [X.st(X.NODE, "parent"), X.st(X.STAR)])])(g.deref(2, cursor_of(nodes, c))))
             items.append(("eval", c, e, {"text": X.render(e, rng)}))
